@@ -33,13 +33,19 @@ ASSUMPTIONS = [
 @st.composite
 def synth_cases(draw):
     T = draw(st.integers(1, 8))
+    # the previous temperature may already be within the beta tolerance (1e-4) of one, or just outside it; a likelihood with a huge
+    # log-likelihood spread then puts the ESS = target crossing inside that last sliver
+    last_beta = draw(st.sampled_from([None, None, None, None, 1 - 5e-5, 1 - 2e-4, 1 - 1e-6, 0.999]))
+    near_one = last_beta is not None
     return {"T": T, "d": draw(st.integers(1, 3)), "N": draw(st.sampled_from([6, 8, 10, 16, 30, 32, 64, 100])),
             "ess_ratio": draw(st.one_of(st.sampled_from([0.5, 1.0, 2.0, 3.5, 1.25, 0.75, 0.29, 2.3]), st.floats(0.3, 4.0))),
             "vv": draw(st.sampled_from([None, None, 0.05, 0.3, 1.0, 5.0])),
-            "logscale": draw(st.one_of(st.floats(-0.5, 3.0), st.floats(3.0, 5.5))), "n_warm": draw(st.integers(1, 4)),
+            "logscale": draw(st.floats(3.5, 5.5)) if near_one else draw(st.one_of(st.floats(-0.5, 3.0), st.floats(3.0, 5.5))),
+            "n_warm": draw(st.integers(1, 4)),
             "beta_pow": draw(st.sampled_from([1.0, 3.0])), "beta_max": draw(st.sampled_from([1.0, 0.1, 1e-3])),
-            "family": draw(st.sampled_from(["tempered", "tempered", "perturbed-logz", "adversarial"])),
-            "unequal": draw(st.booleans()), "seed": draw(st.integers(0, 2**31 - 1))}
+            "family": draw(st.sampled_from(["adversarial", "adversarial", "tempered", "perturbed-logz"] if near_one else
+                                           ["tempered", "tempered", "perturbed-logz", "adversarial"])),
+            "unequal": draw(st.booleans()), "seed": draw(st.integers(0, 2**31 - 1)), "last_beta": last_beta}
 
 
 def build_history(case):
@@ -50,6 +56,9 @@ def build_history(case):
     s = 10.0 ** case["logscale"]
     nw = min(case["n_warm"], T)
     betas = np.r_[np.zeros(nw), np.sort(rng.random(T - nw) ** case["beta_pow"] * case["beta_max"])]
+    if case.get("last_beta") is not None and T > nw:
+        betas[-1] = float(case["last_beta"])
+        betas = np.r_[betas[:nw], np.sort(betas[nw:])]
     sm = StateManager(d)
     for t in range(T):
         nt = int(rng.integers(max(2, N // 2), N + 1)) if case["unequal"] else N
